@@ -439,10 +439,10 @@ class Helper(object):
         return self.node.name
 
 
-def _eligible_def(fn):
+def _eligible_def(fn, any_name=False):
     if not isinstance(fn, ast.FunctionDef):
         return None
-    if not fn.name.startswith('_') or (fn.name.startswith('__') and fn.name.endswith('__')):
+    if (not fn.name.startswith('_') and not any_name) or (fn.name.startswith('__') and fn.name.endswith('__')):
         return None
     a = fn.args
     if a.vararg:
@@ -512,6 +512,40 @@ def collect_helpers(tree, anchors):
         mod_helpers.pop(r, None)
     return mod_helpers, cls_helpers
 
+
+def collect_named_class_helpers(tree, anchors):
+    """Static / class methods of a *private* module-level class, whatever their own name (``_Options.from_kwargs``):
+    (class name, method name) -> Helper.  A call that names the class explicitly -- ``_Options.from_kwargs(kw)`` -- runs
+    exactly that function with ``cls`` = the class when the class name is bound once in the module (the ``class``
+    statement), the class has no metaclass, and its body binds the method name once (the ``def``)."""
+    out = {}
+    bound = {}
+    for n in ast.walk(tree):
+        if isinstance(n, ast.Name) and isinstance(n.ctx, (ast.Store, ast.Del)):
+            bound[n.id] = bound.get(n.id, 0) + 1
+        elif isinstance(n, (ast.FunctionDef, ast.AsyncFunctionDef, ast.ClassDef)):
+            bound[n.name] = bound.get(n.name, 0) + 1
+        elif isinstance(n, (ast.Global, ast.Nonlocal)):
+            for x in n.names:
+                bound[x] = bound.get(x, 0) + 2
+        elif isinstance(n, ast.alias):
+            nm = (n.asname or n.name).split('.')[0]
+            bound[nm] = bound.get(nm, 0) + 1
+    for st in tree.body:
+        if not isinstance(st, ast.ClassDef) or not st.name.startswith('_') or st.name.startswith('__') or st.name in anchors:
+            continue
+        if st.keywords or st.decorator_list or bound.get(st.name) != 1:
+            continue
+        in_body = {}
+        for m in st.body:
+            for nm in ([m.name] if isinstance(m, (ast.FunctionDef, ast.AsyncFunctionDef, ast.ClassDef)) else _stored_names([m])):
+                in_body[nm] = in_body.get(nm, 0) + 1
+        for m in st.body:
+            if isinstance(m, ast.FunctionDef) and m.name not in anchors and not m.name.startswith('_') and in_body.get(m.name) == 1:
+                kind = _eligible_def(m, any_name=True)
+                if kind in ('static', 'class'):
+                    out[(st.name, m.name)] = Helper(m, kind, st.name)
+    return out
 
 
 # ---------------------------------------------------------------------------------------------- context managers
@@ -717,6 +751,7 @@ class Inliner(object):
     def __init__(self, tree, anchors, foreign=None):
         self.tree = tree
         self.mod_helpers, self.cls_helpers = collect_helpers(tree, anchors)
+        self.named_cls_helpers = collect_named_class_helpers(tree, anchors)
         # foreign(name) -> True when another module of the analysed tree mentions ``name`` (None: unknown, assume it does)
         self.foreign = foreign
         self.cm_mod, self.cm_cls = collect_context_managers(tree, anchors)
@@ -838,6 +873,8 @@ class Inliner(object):
                     return h, f.value
             if (recv, f.attr) in self.cls_helpers and self.cls_helpers[(recv, f.attr)].kind in ('static', 'class'):
                 return self.cls_helpers[(recv, f.attr)], f.value
+            if (recv, f.attr) in self.named_cls_helpers and recv not in self.shadowed:
+                return self.named_cls_helpers[(recv, f.attr)], f.value
         return None, None
 
     # -- expansion ---------------------------------------------------------------------------------------
